@@ -22,6 +22,8 @@ sys.path.insert(0, os.path.join(os.path.dirname(os.path.abspath(__file__)), 'pro
 import c06  # noqa
 
 ANON_FORMS = ['corpus', 'prog', 'block3', 'known-witness', 'replay', 'shrink']
+CHAIN_FORMS = ['neg-nest', 'not-nest', 'exp-chain', 'exp-chain-var', 'long-sum', 'long-strcat',
+               'paren-sum', 'long-print', 'long-colon', 'index-nest', 'fn-nest', 'paren']
 
 # id, regexes over the base signature, description, minimal witness, fix file, note on the model
 IE = r'C06/internal-exception\('
@@ -181,11 +183,14 @@ CURATED = [
      'expression nesting of about 10 levels (parentheses, calls, indices) exhausts the Python '
      'stack inside pyparsing: RecursionError escapes parse_string',
      'x = ((((((((((((1))))))))))))', None, None),
-    ('sign-chain-exponential-time',
-     [r'C06/timeout\((parse_string|process_tree|bind|fold|gen_code)\)'],
-     'a chain of unary signs (`y = ' + '-' * 30 + '1`) takes time exponential in its length '
-     '(30 signs: more than 20 CPU seconds): compilation does not terminate in practice',
-     'y = ' + '-' * 30 + '1', None, None),
+    ('expression-chain-exponential-time',
+     [r'C06/timeout\((parse_string|process_tree|bind|fold|gen_code|optimize|bytes|str)\)'],
+     'VALID programs: compile time doubles with every further operand of an operator chain or '
+     'level of unary operators (measured CPU time of `y = x + x + ... + x`: 10 terms 0.9 s, 14 terms '
+     '4.7 s, 18 terms 58 s, 22 terms > 60 s; 30 signs `y = ---...-1` > 20 s): BinaryOp.type / '
+     'UnaryOp.type re-evaluate the operand types recursively several times per node in every pass. '
+     'Compilation of a 25-term sum does not terminate in practice',
+     'y = ' + ' + '.join(['x'] * 26), None, None),
 ]
 
 
@@ -217,6 +222,10 @@ def main():
             base = sig.split('@')[0]
             observed.setdefault(base, set()).add('known-witness' if '@' in sig else None)
             example.setdefault(base, w)
+    # a time-out is attributed to the step of compile() that was running; on a
+    # host of another speed the same chain may time out one step earlier or later
+    for st in ('parse_string', 'process_tree', 'bind', 'fold', 'gen_code', 'optimize', 'bytes', 'str'):
+        observed.setdefault(f'C06/timeout({st})', set()).update(CHAIN_FORMS)
     out = []
     assigned = set()
     for fid, bases, desc, wit, fix, note in CURATED:
@@ -231,7 +240,8 @@ def main():
             if None in observed[b] and not forms:
                 alts.append(re.escape(b))
             else:
-                fl = sorted(set(forms) | set(ANON_FORMS))
+                fl = sorted(set(forms) | set(ANON_FORMS) |
+                            (set(CHAIN_FORMS) if b.startswith('C06/timeout') else set()))
                 alts.append(re.escape(b) + '@(?:' + '|'.join(re.escape(x) for x in fl) + ')')
         entry = {'property': 'C06', 'id': fid, 'status': 'open',
                  'signature': '(?:' + '|'.join(alts) + ')',
